@@ -137,7 +137,7 @@ def verify_auth(policy, cred_value):
 
 
 # ---------- registration ----------
-import sys, contextlib, datetime
+import sys, contextlib, datetime, threading
 
 
 class _FakeTime:
@@ -150,6 +150,23 @@ class _FakeTime:
     def __getattr__(self, n):
         import time as _t
         return getattr(_t, n)
+
+
+STORE_LOG = []          # one list of SHA-256 certificate fingerprints per certificate store built during the current verification
+FOREIGN_ANCHORS = []    # anchors found in force that are neither RP-supplied nor the built-in roots the harness named (see verify_reg)
+_FP = {}
+
+
+def pem_fingerprint(pem):
+    import hashlib
+    from cryptography import x509
+    if pem not in _FP:
+        try:
+            from cryptography.hazmat.primitives import serialization
+            _FP[pem] = hashlib.sha256(x509.load_pem_x509_certificate(pem).public_bytes(serialization.Encoding.DER)).hexdigest()
+        except Exception:
+            _FP[pem] = None
+    return _FP[pem]
 
 
 @contextlib.contextmanager
@@ -175,10 +192,18 @@ def substituted(builtin, now):
         def __init__(self):
             super().__init__()
             self._added = []
+            STORE_LOG.append([])
+            self._log = STORE_LOG[-1]
             X509Store.set_time(self, datetime.datetime.fromtimestamp(now, datetime.timezone.utc).replace(tzinfo=None))
 
         def add_cert(self, cert):
             self._added.append(cert)
+            try:
+                import hashlib
+                from OpenSSL.crypto import dump_certificate, FILETYPE_ASN1
+                self._log.append((hashlib.sha256(dump_certificate(FILETYPE_ASN1, cert)).hexdigest(), str(cert.get_subject())))
+            except Exception:
+                pass
             super().add_cert(cert)
 
         def set_time(self, vfy_time):
@@ -299,10 +324,44 @@ def pr_verified_reg(v):
                      fw.wbool(v.credential_device_type.value == "multi_device"), fw.wbool(v.credential_backed_up)])
 
 
+def _x5c_fingerprints(cred_value):
+    import hashlib, json as _json, base64, cbor2
+    try:
+        if hasattr(cred_value, "response"):
+            ao = bytes(cred_value.response.attestation_object)
+        else:
+            d = _json.loads(cred_value) if isinstance(cred_value, str) else cred_value
+            t = d["response"]["attestationObject"]
+            ao = base64.urlsafe_b64decode(t + "=" * (-len(t) % 4))
+        st = cbor2.loads(ao).get("attStmt", {})
+        out = {hashlib.sha256(bytes(c)).hexdigest() for c in st.get("x5c", []) if isinstance(c, (bytes, bytearray))}
+        return out
+    except Exception:
+        return set()
+
+
 def verify_reg(policy, cred_value):
     from webauthn import verify_registration_response as f
+    del STORE_LOG[:]
     with substituted(policy.substitute, policy.now):
-        return outcome(lambda: f(credential=cred_value, **policy.kwargs()), pr_verified_reg)
+        out = outcome(lambda: f(credential=cred_value, **policy.kwargs()), pr_verified_reg)
+    # every anchor that was in force is one the RP supplied or one of the built-in roots (as named by the harness: the pinned constants of
+    # known_root_certs, or what the harness put in their place) - "to one of THOSE anchors" leaves no room for a further one
+    if STORE_LOG and threading.current_thread() is threading.main_thread():
+        try:
+            allowed = set()
+            for lst in list(policy.builtin.values()) + [v for v in (policy.roots or {}).values() if isinstance(v, (list, tuple))]:
+                for pem in lst:
+                    if isinstance(pem, (bytes, bytearray, memoryview)):
+                        allowed.add(pem_fingerprint(bytes(pem)))
+            allowed |= _x5c_fingerprints(cred_value)      # (android-key verifies against the chain's own last certificate and then looks that one up among the anchors)
+            for store in ([] if None in allowed else STORE_LOG):      # (an RP entry the harness itself cannot read as one certificate: no verdict)
+                for fp, subj in store:
+                    if fp not in allowed and not any(x["fingerprint"] == fp for x in FOREIGN_ANCHORS):
+                        FOREIGN_ANCHORS.append({"fingerprint": fp, "subject": subj, "rp_roots_for": sorted(map(str, (policy.roots or {}).keys())), "outcome": out[:60]})
+        except Exception:
+            pass
+    return out
 
 
 # ---------- TPM ----------
